@@ -88,7 +88,7 @@ func TestVerifLicConc(t *testing.T) {
 	// the very first calls of this process: many callers, the same short text, finishing at the same moment
 	{
 		l0 := load()
-		qi := len(qs) - 4 // the damaged WTFPL text
+		qi := len(qs) - 3 // the WTFPL text as shipped: it IS reported, so whatever is consulted about a reported forbidden license is consulted (the damaged copy is too short to be found at all)
 		var wg sync.WaitGroup
 		var mu sync.Mutex
 		for g := 0; g < 16; g++ {
